@@ -907,6 +907,30 @@ package badger
 //@   assert[records-in-order] before call Entry : arg0 == read && arg1 == reader
 //@   assert[starts-after-header] before call NewReader#2 : arg1 == (old(offset) == 0 ? vlogHeaderSize : int(old(offset)))
 
+// ---- what a Stream and a Backup emit for one key (C33, C24) ----
+
+// ToList: versions are emitted newest first and only for the requested key; a deleted or
+// expired version is never emitted and ends the list (so it hides the older versions too).
+//@ func (*Stream).ToList
+//@   props C33 C24 C25
+//@   light
+//@   assert[live-versions-only] before call NewKV : called(IsDeletedOrExpired#1) && !ret(IsDeletedOrExpired#1)
+//@   assert[deleted-or-expired-ends-the-list] before call Next : !ret(IsDeletedOrExpired#1)
+//@   assert[same-key-only] before call NewKV : ret(Equal#1)
+//@   assert[as-read] before call append : kv.Version == ret(Version#1) && kv.ExpiresAt == ret(ExpiresAt#1)
+
+// Backup's KeyToList: every version of the key is written with its own version, expiry, user
+// meta and meta (transaction bits cleared); the value is fetched only for live versions; a
+// deleted or expired version is written as such and ends the list; a discard-earlier-versions
+// entry is followed by a delete marker one version below it.
+//@ func (*Stream).Backup.KeyToList
+//@   props C33 C24
+//@   light
+//@   assert[value-only-when-live] before call Value : !ret(IsDeletedOrExpired#1)
+//@   assert[same-key-only] before call NewKV : ret(Equal#1)
+//@   assert[marker-ends-the-list] before call Next : !ret(IsDeletedOrExpired#2) && !ret(DiscardEarlierVersions#1)
+//@   assert[discard-marker-just-below] before call append#2 : called(DiscardEarlierVersions#1) && ret(DiscardEarlierVersions#1)
+
 // ---- streams (C25): one snapshot per run ----
 
 // Every producer goroutine of one Stream run must read the same snapshot. With a caller-given
